@@ -187,10 +187,19 @@ def check_hc_file(buf, spec):
             if it is not None and it.values:
                 if it.values[0] not in ENUMS['FrameIndexType'] + ['TIME']:
                     out.append(('hc-enum', 'index-type', repr(it.values[0])))
-                sp = o.attrs.get('SPACING')
                 rows = dlf.frame_rows.get(o.name, [])
-                if len(rows) >= 2 and (sp is None or sp.values is None):
-                    out.append(('hc-nonuniform-index', 'spacing-absent', f"frame {o.name[2]}"))
+                if len(rows) >= 3:
+                    from vf.props.c13 import NP_OF_CODE, TOL
+                    ch0 = dlf.find('CHANNEL', o.attrs['CHANNELS'].values[0])[0][0]
+                    code = ch0.attrs['REPRESENTATION-CODE'].values[0]
+                    col = [float(np.frombuffer(r.slots[0], dtype=NP_OF_CODE[code])[0]) for r in rows]
+                    D = [b - a for a, b in zip(col, col[1:])]
+                    med = float(np.median(D))
+                    if not all(d == D[0] for d in D):
+                        dev = float('inf') if med == 0 else max((1 - d / med) ** 2 for d in D)
+                        if dev > TOL * (1 + 1e-3):
+                            out.append(('hc-nonuniform-index', 'written-in-mode', f"frame {o.name[2]}: index "
+                                                                                  f"differences {D[:6]}"))
         for cn, n in used.items():
             if n != 1:
                 out.append(('hc-channel-frame-count', str(min(n, 2)), f"channel {cn} is in {n} frames"))
